@@ -246,6 +246,7 @@ class Run:
         """Build harness/cmd/<cmdname> against the repository under test (VERIF_REPO, default /repo).
         For a non-default repository a private go.mod (replace => that tree) is used via -modfile,
         so concurrent runs against scratch worktrees do not disturb each other."""
+        race = race or bool(os.environ.get("VERIF_RACE"))
         suffix = ("-race" if race else "")
         modargs = []
         if os.path.realpath(REPO) != "/repo":
@@ -291,6 +292,9 @@ class Run:
         e["VERIF_SEED"] = str(self.seed)
         e["VERIF_TIER"] = self.tier
         e["VERIF_SCRATCH"] = self.scratch
+        if os.environ.get("VERIF_RACE_DIR"):
+            # C36: every process of the workload (children included) writes its race reports here
+            e["GORACE"] = "log_path=%s/race halt_on_error=0 history_size=4" % os.environ["VERIF_RACE_DIR"]
         if env:
             e.update(env)
         try:
